@@ -268,6 +268,19 @@ func RunKeys(c YCase) (out pbt.Outcome) {
 		return runKeys(c, intPool, func(k int) string { return fmt.Sprint(k) }, nil)
 	case "string":
 		return runKeys(c, strPool, func(k string) string { return fmt.Sprintf("%q", k) }, nil)
+	case "longstr":
+		// five long strings (70..300 bytes), each present four times at DIFFERENT addresses (built at run time): equal keys
+		var pool []string
+		for d := 0; d < 5; d++ {
+			for cp := 0; cp < 4; cp++ {
+				b := make([]byte, 0, 400)
+				for len(b) < 70+d*57 {
+					b = append(b, byte('a'+d), byte('0'+len(b)%10))
+				}
+				pool = append(pool, string(b)) // a fresh allocation per copy
+			}
+		}
+		return runKeys(c, pool, func(k string) string { return fmt.Sprintf("%q...(%d bytes)", k[:6], len(k)) }, nil)
 	case "float":
 		return runKeys(c, fltPool, func(k float64) string {
 			if k == 0 && 1/k < 0 {
@@ -316,12 +329,12 @@ func RunKeys(c YCase) (out pbt.Outcome) {
 var specKeys = pbt.Register(&pbt.Spec[YCase]{
 	Property: "C09", Name: "C09.keys",
 	Rule: "sequential histories of 4..60 calls {TryLockKey, TryRLockKey, LockKey/RLockKey of a free key (in a goroutine: must not block), UnlockKey, RUnlockKey, ClearKey of an idle key} on one KeyedMutex / KeyedRWMutex over key types " +
-		"int, string, float64, *struct (the pointee is changed between calls), struct, struct with a float field, any (mixed dynamic types) and [2]int; the pools hold distinct keys that collide under common hashes or truncations " +
+		"int, string, long strings (70..300 bytes, every key present as four equal copies at different addresses), float64, *struct (the pointee is changed between calls), struct, struct with a float field, any (mixed dynamic types) and [2]int; the pools hold distinct keys that collide under common hashes or truncations " +
 		"(1 / 2971215074, k / k+2^32 / k+2^16, FNV-1a pairs like costarring / liquid, 2^53 / 2^53+2, \"e\\u0301\" / \"é\") and equal keys that look different (0.0 / -0.0); " +
 		"oracle: a per-key state kept in Go's own map[K] (the reference for key equality): Try* answers exactly 'free / compatible', a free key never blocks whatever else is held, and at the end everything unlocks and is free again; " +
 		"non-trivial = at least one refused Try and one acquisition of a free key while other keys are held",
 	Gen: func(t *rapid.T) YCase {
-		c := YCase{RW: rapid.Bool().Draw(t, "rw"), Type: rapid.SampledFrom([]string{"int", "string", "float", "ptr", "struct", "fstruct", "iface", "array"}).Draw(t, "type")}
+		c := YCase{RW: rapid.Bool().Draw(t, "rw"), Type: rapid.SampledFrom([]string{"int", "string", "longstr", "float", "ptr", "struct", "fstruct", "iface", "array"}).Draw(t, "type")}
 		ops := []string{"try", "try", "try", "tryr", "tryr", "lock", "rlock", "unlock", "unlock", "runlock", "clear", "mutate"}
 		narrow := rapid.Bool().Draw(t, "narrow") // few keys: more contention on equal keys
 		c.Steps = pbt.OpsOf(t, rapid.Custom(func(t *rapid.T) YStep {
